@@ -246,6 +246,9 @@ func (m *model) instantiateAs(spec *ModSpec, name string) instResult {
 		in.exports["mem"] = mExport{kind: wenc.ExtMemory, mem: in.mem}
 	}
 	for i, t := range in.tabs {
+		if spec.HideImportedTables && i < lay.NImpT {
+			continue
+		}
 		in.exports[fmt.Sprintf("t%d", i)] = mExport{kind: wenc.ExtTable, tab: t}
 	}
 	for i, g := range in.globs {
